@@ -30,16 +30,25 @@ FirstAppearance(col) ==
        IN  IF last \in Range(init) THEN init ELSE Append(init, last)
 
 AllelesAt(r, p) == FirstAppearance(Column(r, p))
-Alleles(r) == LET cs == SnvCols(r) IN [j \in 1..Len(cs) |-> AllelesAt(r, cs[j])]
-
 IndexOf(seq, x) == (CHOOSE j \in 1..Len(seq) : seq[j] = x) - 1
 
-(* rows x SNV columns matrix of allele numbers *)
-Encode(r) ==
-  LET cs == SnvCols(r)
-      al == Alleles(r)
+(* the codec on an arbitrary ascending list of columns cs (the SNV columns found *)
+(* in the sequences, or the columns an INFO/SNVPOS annotation names)            *)
+AllelesOn(r, cs) == [j \in 1..Len(cs) |-> AllelesAt(r, cs[j])]
+EncodeOn(r, cs) ==
+  LET al == AllelesOn(r, cs)
       rows == Rows(r)
   IN  [h \in 1..Len(rows) |-> [j \in 1..Len(cs) |-> IndexOf(al[j], rows[h][cs[j]])]]
+
+Alleles(r) == AllelesOn(r, SnvCols(r))
+(* rows x SNV columns matrix of allele numbers *)
+Encode(r) == EncodeOn(r, SnvCols(r))
+
+(* An INFO/SNVPOS annotation as a record arrives with it:                        *)
+(*   [kind |-> "absent"]  no SNVPOS key,  "dot"  SNVPOS=. ,  "list"  cols = the  *)
+(*   1-based columns it names.  It COVERS the record when every polymorphic      *)
+(*   column is named (every assemble output; not a merged / edited catalogue).   *)
+Covers(hnt, r) == hnt.kind # "absent" /\ Range(SnvCols(r)) \subseteq Range(hnt.cols)
 
 (* REF with the SNV columns replaced by the named alleles *)
 DecodeRow(r, cs, al, row) ==
